@@ -306,6 +306,25 @@ Definition rejected_unchanged (init : obs) (st : list istep) : bool :=
     | _ => true
     end) (threads st).
 
+(* every blocking report the monitor received is answered: the monitor reaches
+   its reply point before it is back at its select (or leaves) *)
+Fixpoint answered_from (all : list istep) (pending : bool) (st : list istep) : bool :=
+  match st with
+  | [] => true
+  | x :: r =>
+      let starts :=
+        match i_lab x with
+        | LMonRecv (ROffer t) =>
+            match op_of all t with Some (OpOffer (MsgUpdate _ _ true)) => true | _ => false end
+        | _ => false
+        end in
+      let m := o_mon (i_obs x) in
+      let pend := (pending || starts) && negb (m =? 2) in
+      if pend && ((m =? 0) || (m =? 8) || (m =? 9)) then false
+      else answered_from all pend r
+  end.
+Definition blocking_answered (st : list istep) : bool := answered_from st false st.
+
 (* every store made while verification is active carries a config that verifies *)
 Definition first_enable_ok (st : list istep) : option N :=
   match find (fun ie => match snd ie with ORet _ (RetEnable (EOk _)) => true | _ => false end) (events st) with
